@@ -284,7 +284,7 @@ fn frame_sizes(rng: &mut Rng, frames: usize) -> Vec<Vec<u8>> {
 }
 
 fn helper_leg(cfg: &Cfg, sink: &Mutex<Sink>) -> Local {
-    let n = cfg.n(5_000, 100_000);
+    let n = cfg.n(5_000, 300_000);
     run_parallel(
         cfg,
         181,
@@ -412,7 +412,7 @@ fn helper_leg(cfg: &Cfg, sink: &Mutex<Sink>) -> Local {
 }
 
 fn transcode_leg(cfg: &Cfg, sink: &Mutex<Sink>, encoders: &[(String, String)]) -> Local {
-    let n = cfg.n(1_200, 40_000);
+    let n = cfg.n(1_200, 120_000);
     run_parallel(
         cfg,
         182,
@@ -482,7 +482,7 @@ fn transcode_leg(cfg: &Cfg, sink: &Mutex<Sink>, encoders: &[(String, String)]) -
 }
 
 fn handbuilt_leg(cfg: &Cfg, sink: &Mutex<Sink>) -> Local {
-    let n = cfg.n(5_000, 200_000);
+    let n = cfg.n(5_000, 600_000);
     run_parallel(
         cfg,
         183,
